@@ -477,6 +477,22 @@ Section Oracle.
                                    end) in
       zlist_eqb (inv_ids_before_body t) expected.
 
+  (** *** after the body: a call that returns normally has evaluated every invariant that applies after it, each
+      once and in order (whether or not its condition takes the instance) *)
+  Definition inv_ids_after_body (t : list event) : list Z :=
+    (fix skip (t : list event) : list Z :=
+       match t with
+       | EvBody _ _ :: rest => flat_map (fun e => match e with EvCond RInv k _ _ => [k] | _ => [] end) rest
+       | _ :: rest => skip rest
+       | [] => []
+       end) t.
+
+  Definition spec_C16_after (t : list event) (r : pv + exn) : bool :=
+    match r with
+    | inl _ => if existsb is_body t then zlist_eqb (inv_ids_after_body t) (map cid invs_after) else true
+    | inr _ => true
+    end.
+
   (** the class of the recorded finding D30 *)
   Definition kf_C03_setter_class : bool :=
     match k_kind c with KPropSet => negb (is_nil (setattr_list c)) | _ => false end.
